@@ -201,9 +201,9 @@ pub fn check_exact(w: &mut World, st: &Status, waiters: usize, at: &str) {
     };
     if !exp_max.contains(&st.max_size) {
         if w.close_returned {
-            w.violate(&["C06"], "max-size-after-close", format!("{}: status().max_size is {} on a closed pool", at, st.max_size));
+            w.violate(&["C06", "C11"], "max-size-after-close", format!("{}: status().max_size is {} on a closed pool", at, st.max_size));
         } else if w.resizes_begun > 0 {
-            w.violate(&["C07"], "max-size-after-resize", format!("{}: status().max_size is {}, last resize target {:?}", at, st.max_size, exp_max));
+            w.violate(&["C07", "C11"], "max-size-after-resize", format!("{}: status().max_size is {}, last resize target {:?}", at, st.max_size, exp_max));
         } else {
             w.violate(&["C11"], "max-size", format!("{}: status().max_size is {}, configured {:?}", at, st.max_size, exp_max));
         }
